@@ -463,6 +463,8 @@ class SuitKeyValue(SuitObject):
             raise ValueError(f"Expected key-value storage, received: {kv_dict}")
         for k, v in kv_dict.items():
             if not (child := cls._get_method_and_name(k, "id")):
+                if cls._metadata.embedded is None:
+                    raise ValueError(f"Unknown parameter: {k}")
                 for item in cls._metadata.embedded:
                     try:
                         try:
